@@ -24,8 +24,10 @@ class AttrExec(SeqExec):
         if name in ("DictExporter", "DictImporter"):
             yield p, V("class", name)
             return
-        if name in ("getattr", "setattr", "super"):
+        if name in ("getattr", "setattr", "super", "dict", "isinstance"):
             yield p, V("builtin", name)
+        elif name == "ASSERTIONS":
+            yield p, vbool(Const("ASSERTIONS", B))
         elif name in ("SymlinkNodeMixin", "AttributeError"):
             yield p, V("class", name)
         else:
@@ -33,6 +35,19 @@ class AttrExec(SeqExec):
 
     def effect(self, p, *ev):
         p.extra["effects"] = list(p.extra.get("effects", [])) + [ev]
+
+    def e_List(self, e, p):
+        if not e.elts:
+            yield p, V("opaque", ("empty-list",))
+            return
+        raise Unsupported("list literal")
+
+    def s_Assert(self, st, p):
+        if getattr(self.spec, "plain_object", False):
+            # assertions about the shape of user data (isinstance(data, dict), 'parent' not in data): preconditions, not modelled
+            p.trace.append("assert")
+            return [p]
+        return SeqExec.s_Assert(self, st, p)
 
     def e_Constant(self, e, p):
         if isinstance(e.value, str):
@@ -57,6 +72,9 @@ class AttrExec(SeqExec):
     def attr_load(self, obj, attr, p, e):
         if obj.k == "module" and obj.t == "json" and attr in ("dumps", "dump", "loads", "load"):
             yield p, V("jsonfn", attr)
+            return
+        if obj.k == "opaque" and attr == "pop":
+            yield p, V("dictmethod", (obj, "pop"))
             return
         if obj.k == "helper" and attr in ("export", "import_"):
             yield p, V("helpermethod", (obj, attr))
@@ -131,6 +149,30 @@ class AttrExec(SeqExec):
                 return Not(a_.t[0])
         return SeqExec.is_compare(self, l, r, p, e)
 
+    # ---- dictionary copy / pop / construction / for-each (DictImporter.__import) -----------------------------------------
+    def s_For(self, st, p):
+        if not getattr(self.spec, "plain_object", False):
+            return SeqExec.s_For(self, st, p)
+        out = []
+        for q, itv in self.ev(st.iter, p):
+            if itv.k != "opaque":
+                raise Unsupported("iteration over %r" % (itv,))
+            if st.orelse or any(isinstance(n, (ast.Break, ast.Continue, ast.Return, ast.Raise, ast.Yield)) for s_ in st.body for n in ast.walk(s_)):
+                raise Unsupported("for-each body with control flow")
+            elem = V("opaque", ("element-of", itv.t))
+            before = list(q.extra.get("effects", []))
+            sub = q.fork(label="foreach")
+            sub.extra["effects"] = []
+            if not isinstance(st.target, ast.Name):
+                raise Unsupported("for-each target")
+            sub.env[st.target.id] = elem
+            ends = self.block(st.body, [sub])
+            if len(ends) != 1:
+                raise Unsupported("for-each body with several outcomes")
+            q.extra["effects"] = before + [("for-each", itv, elem, tuple(ends[0].extra.get("effects", [])))]
+            out.append(q)
+        return out
+
     def narrow(self, v, truthy):
         if v.k == "opthelper" and truthy:
             return V("helper", v.t[1])
@@ -153,7 +195,22 @@ class AttrExec(SeqExec):
                 pos = vs[:len(pos_nodes)]
                 stars = vs[len(pos_nodes):len(pos_nodes) + len(star)]
                 kws = dict(zip([k.arg for k in named], vs[len(pos_nodes) + len(star):]))
-                if fv.k == "jsonfn":
+                if fv.k == "builtin" and fv.t == "dict" and len(pos) == 1 and not kws and not stars:
+                    res = V("opaque", ("dict-copy-of", id(pos[0])), {"of": pos[0]})
+                    self.effect(q2, "dict-copy", pos[0], res)
+                    yield q2, res
+                elif fv.k == "dictmethod" and fv.t[1] == "pop" and len(pos) == 2:
+                    d_ = fv.t[0]
+                    res = V("opaque", ("popped", id(d_)), {"from": d_})
+                    self.effect(q2, "pop", d_, pos[0], pos[1], res)
+                    yield q2, res
+                elif fv.k == "bound" and fv.t[2] == "nodecls":
+                    pass
+                elif fv.k == "opaque" and fv.t == ("self.nodecls",):
+                    res = V("opaque", ("new-node", len(q2.extra.get("effects", []))))
+                    self.effect(q2, "construct", tuple(pos), tuple(stars), tuple(sorted(kws.items())), res)
+                    yield q2, res
+                elif fv.k == "jsonfn":
                     rid = len(q2.extra.get("effects", []))
                     res = V("opaque", ("json." + fv.t, rid))
                     self.effect(q2, "json." + fv.t, tuple(pos), tuple(stars), tuple(sorted(kws.items())), res)
@@ -171,7 +228,7 @@ class AttrExec(SeqExec):
                     obj, c_, m = fv.t
                     spec = self.reg.methods[(c_, m)]
                     for q3, res in self.apply_named(spec, [obj] + pos, kws, q2, "call:%s.%s" % (c_, m)):
-                        self.effect(q3, "call:" + m, tuple(pos), res)
+                        self.effect(q3, "call:" + m, tuple(pos), res, dict(kws))
                         yield q3, res
                 else:
                     raise Unsupported("call %s" % ast.unparse(e))
